@@ -53,6 +53,8 @@ type HistRun struct {
 	Accepted map[string]int
 	Dir      string
 	Died     *ErrDead
+	okHash   map[string]int64 // successful transaction bytes -> height (C04: at most once)
+	okNonce  map[string]int64 // sender/nonce of successful transactions -> height
 	Rejected map[string]int
 }
 
@@ -297,6 +299,20 @@ func runHistory(c *Ctx, caseIdx int, rng *rand.Rand, o *HistOpts) *HistRun {
 			name := "junk"
 			if t.Tx != nil {
 				name = typeName(t.Tx.Type)
+			}
+			if res.Txs[i].Code == 0 && t.Tx != nil {
+				if hr.okHash == nil {
+					hr.okHash, hr.okNonce = map[string]int64{}, map[string]int64{}
+				}
+				if h0, dup := hr.okHash[t.Hash]; dup {
+					hr.issue("C04", "same-transaction-succeeded-twice", fmt.Sprintf("block %d tx %d (%s): these signed bytes already succeeded in block %d", h, i, t.Label, h0))
+				}
+				hr.okHash[t.Hash] = h
+				sn := fmt.Sprintf("%s/%d", hx(t.Tx.From), t.Tx.Nonce)
+				if h0, dup := hr.okNonce[sn]; dup {
+					hr.issue("C04", "same-sender-nonce-succeeded-twice", fmt.Sprintf("block %d tx %d (%s): sender/nonce %s already succeeded in block %d", h, i, t.Label, sn, h0))
+				}
+				hr.okNonce[sn] = h
 			}
 			if res.Txs[i].Code == 0 {
 				hr.Accepted[name]++
